@@ -19,19 +19,36 @@ def spectrum_case(draw, min_dim=1, max_dim=3, min_n=1, max_n=8, max_entries=4000
         ns.append(n)
         entries *= (n + 1)
     shape = [n + 1 for n in ns]
-    if values == 'counts':
-        el = st.one_of(st.integers(0, 50).map(float), st.floats(0, 100), st.just(0.0))
-    elif values == 'positive':
-        el = st.floats(1e-3, 100)
+    if entries <= 24:
+        if values == 'counts':
+            el = st.one_of(st.integers(0, 50).map(float), st.floats(0, 100), st.just(0.0))
+        elif values == 'positive':
+            el = st.floats(1e-3, 100)
+        else:
+            el = st.floats(-100, 100)
+        data = draw(st.lists(el, min_size=entries, max_size=entries))
+        if masks and draw(st.booleans()):
+            p = draw(st.sampled_from([0.05, 0.2, 0.5]))
+            thr = int(p * 100)
+            mask = [1 if v < thr else 0 for v in draw(st.lists(st.integers(0, 99), min_size=entries, max_size=entries))]
+        else:
+            mask = [0] * entries
     else:
-        el = st.floats(-100, 100)
-    data = draw(st.lists(el, min_size=entries, max_size=entries))
-    if masks and draw(st.booleans()):
-        p = draw(st.sampled_from([0.05, 0.2, 0.5]))
-        thr = int(p * 100)
-        mask = [1 if v < thr else 0 for v in draw(st.lists(st.integers(0, 99), min_size=entries, max_size=entries))]
-    else:
-        mask = [0] * entries
+        # large arrays: values from a drawn seed (fast; the seed, not the array, is what shrinks and replays)
+        rs = np.random.RandomState(draw(st.integers(0, 2 ** 31 - 1)))
+        if values == 'counts':
+            data = np.where(rs.rand(entries) < 0.5, rs.randint(0, 50, entries).astype(float), rs.uniform(0, 100, entries))
+            data[rs.rand(entries) < draw(st.sampled_from([0.0, 0.1, 0.5]))] = 0.0
+        elif values == 'positive':
+            data = rs.uniform(1e-3, 100, entries)
+        else:
+            data = rs.uniform(-100, 100, entries)
+        data = [float(v) for v in data]
+        if masks and draw(st.booleans()):
+            p = draw(st.sampled_from([0.05, 0.2, 0.5]))
+            mask = [int(v) for v in (rs.rand(entries) < p)]
+        else:
+            mask = [0] * entries
     mask_corners = draw(st.booleans())
     if mask_corners:
         mask[0] = mask[-1] = 1
